@@ -81,6 +81,7 @@ type TermCtx struct {
 	ufList []string
 	True   *Term
 	False  *Term
+	srMemo map[int]srng
 }
 
 func NewTermCtx() *TermCtx {
@@ -490,6 +491,37 @@ func (c *TermCtx) BV(op Op, a, b *Term) *Term {
 			return c.Const(w, 0)
 		}
 	case OpBVSDiv, OpBVSRem:
+		if b.IsConst() && signExt(b.K, w) > 0 {
+			k := signExt(b.K, w)
+			// a == q*k as integers (no wrap-around anywhere in a): a/k = q, a%k = 0
+			if q := c.exactMultiple(a, k); q != nil {
+				if op == OpBVSDiv {
+					return q
+				}
+				return c.Const(w, 0)
+			}
+			// (x*k)/k = x and (x*k)%k = 0 when the product cannot overflow
+			if x, k2, ok := c.mulByConst(a); ok && k2 == k {
+				if op == OpBVSDiv {
+					return x
+				}
+				return c.Const(w, 0)
+			}
+			if lo, hi, ok := c.sRange(a); ok {
+				if lo > -k && hi < k { // |a| < k: quotient 0, remainder a
+					if op == OpBVSDiv {
+						return c.Const(w, 0)
+					}
+					return a
+				}
+				if lo >= 0 && a.Op != OpBVUDiv && a.Op != OpBVURem {
+					if op == OpBVSDiv {
+						return c.BV(OpBVUDiv, a, b)
+					}
+					return c.BV(OpBVURem, a, b)
+				}
+			}
+		}
 		if b.IsConst() && b.K != 0 && knownMax(a) <= mask(w)>>1 && b.K <= mask(w)>>1 {
 			// both non-negative: signed == unsigned
 			if op == OpBVSDiv {
@@ -501,6 +533,13 @@ func (c *TermCtx) BV(op Op, a, b *Term) *Term {
 		if b.IsConst() && b.K == 1 {
 			return a
 		}
+		if b.IsConst() && signExt(b.K, w) > 0 {
+			if x, k2, ok := c.mulByConst(a); ok && k2 == signExt(b.K, w) {
+				if lo, _, ok := c.sRange(x); ok && lo >= 0 {
+					return x
+				}
+			}
+		}
 		if b.IsConst() && bits.OnesCount64(b.K) == 1 {
 			return c.BV(OpBVLShr, a, c.Const(w, uint64(bits.TrailingZeros64(b.K))))
 		}
@@ -510,6 +549,13 @@ func (c *TermCtx) BV(op Op, a, b *Term) *Term {
 	case OpBVURem:
 		if b.IsConst() && b.K == 1 {
 			return c.Const(w, 0)
+		}
+		if b.IsConst() && signExt(b.K, w) > 0 {
+			if x, k2, ok := c.mulByConst(a); ok && k2 == signExt(b.K, w) {
+				if lo, _, ok := c.sRange(x); ok && lo >= 0 {
+					return c.Const(w, 0)
+				}
+			}
 		}
 		if b.IsConst() && bits.OnesCount64(b.K) == 1 {
 			return c.BV(OpBVAnd, a, c.Const(w, b.K-1))
@@ -682,6 +728,38 @@ func (c *TermCtx) Cmp(op Op, a, b *Term) *Term {
 			return c.True
 		}
 	case OpSLt, OpSLe:
+		if la, ha, oka := c.sRange(a); oka {
+			if lb, hb, okb := c.sRange(b); okb {
+				// disjoint intervals decide the comparison
+				if ha < lb || (op == OpSLe && ha <= lb) {
+					return c.True
+				}
+				if la > hb || (op == OpSLt && la >= hb) {
+					return c.False
+				}
+			}
+		}
+		// a < b  <=>  0 < b-a  when a, b and the (cancelled) difference are all free of wrap-around
+		if !a.IsConst() && !b.IsConst() && (a.Op == OpBVAdd || b.Op == OpBVAdd) {
+			if c.sRangeFull(a).exact && c.sRangeFull(b).exact {
+				if d := c.cancelSub(b, a, 6); d != nil && d.W == a.W {
+					if r := c.sRangeFull(d); r.exact && r.ok && (d.W == 64 || d.IsConst() || !(d.Op == OpBVAdd || d.Op == OpBVSub || d.Op == OpBVNeg || d.Op == OpBVMul) || c.strictOK(d)) {
+						return c.Cmp(op, c.Const(a.W, 0), d)
+					}
+				}
+			}
+		}
+		// x*k < y*k  <=>  x < y  for k > 0 when neither product can overflow
+		if x, k1, ok1 := c.mulByConst(a); ok1 {
+			if y, k2, ok2 := c.mulByConst(b); ok2 && k1 == k2 {
+				return c.Cmp(op, x, y)
+			}
+			if b.IsConst() && signExt(b.K, b.W)%k1 == 0 {
+				return c.Cmp(op, x, c.Const(b.W, uint64(signExt(b.K, b.W)/k1)))
+			}
+		} else if y, k2, ok2 := c.mulByConst(b); ok2 && a.IsConst() && signExt(a.K, a.W)%k2 == 0 {
+			return c.Cmp(op, c.Const(a.W, uint64(signExt(a.K, a.W)/k2)), y)
+		}
 		// both known non-negative => unsigned compare decides
 		sm := mask(a.W) >> 1
 		if knownMax(a) <= sm && knownMax(b) <= sm {
